@@ -262,6 +262,10 @@ MUTANTS = [
     ("inner-prod-second-slot-gets-the-first-slots-rule", {"C03": "A5.selfread", "C04": "A5.selfread", "C01": "A5.selfread"}, [(CO, "    lambda ans, vs, x, y: lambda g: vs.covector(vs.scalar_mul(x, g)),\n)", "    lambda ans, vs, x, y: lambda g: vs.covector(vs.scalar_mul(y, g)),\n)")]),
     ("multiply-second-slot-multiplies-by-itself", {"C01": "A5.selfread", "C04": "A5.selfread"}, [(NV, "    lambda ans, x, y: unbroadcast_f(y, lambda g: x * g),", "    lambda ans, x, y: unbroadcast_f(y, lambda g: y * g),")]),
     ("rfft-forward-scale-copied-from-backward", {"C09": "A6.distinct", "C01": "A6.distinct"}, [(FF, "    elif norm == \"forward\":\n        fac *= N", "    elif norm == \"forward\":\n        fac /= N")]),
+    ("mean-count-from-the-last-axis-only", {"C01": "A3.fold", "C07": "A3.fold"}, [(NV, "    def vjp(g):\n        g_repeated, num_reps = repeat_to_match_shape(g, shape, dtype, axis, keepdims)\n        return g_repeated / num_reps\n\n    return vjp\n\n\ndefvjp(anp.mean, grad_np_mean)", "    num_reps = anp.size(x)\n    if axis is not None:\n        for ax in axis if isinstance(axis, tuple) else (axis,):\n            num_reps = shape[ax]\n\n    def vjp(g):\n        return repeat_to_match_shape(g / num_reps, shape, dtype, axis, keepdims)[0]\n\n    return vjp\n\n\ndefvjp(anp.mean, grad_np_mean)")]),
+    ("complex-probe-from-one-draw", {"C18": "A18.probe"}, [(NS, "        return np.array(np.random.randn(*self.shape)).astype(self.dtype) + 1.0j * np.array(\n            np.random.randn(*self.shape)\n        ).astype(self.dtype)", "        return np.array(self.ones() * np.random.randn(*self.shape)).astype(self.dtype)")]),
+    ("complex-probe-without-imaginary-part", {"C18": "A18.probe"}, [(NS, "        return np.array(np.random.randn(*self.shape)).astype(self.dtype) + 1.0j * np.array(\n            np.random.randn(*self.shape)\n        ).astype(self.dtype)", "        return np.array(np.random.randn(*self.shape) + np.random.randn(*self.shape)).astype(self.dtype)")]),
+    ("mean-where-count-on-the-unbroadcast-mask", {"C01": "A3.reduce"}, [(NV, "def grad_np_mean(ans, x, axis=None, keepdims=False):\n    shape, dtype = anp.shape(x), anp.result_type(x)\n\n    def vjp(g):\n        g_repeated, num_reps = repeat_to_match_shape(g, shape, dtype, axis, keepdims)\n        return g_repeated / num_reps", "def grad_np_mean(ans, x, axis=None, keepdims=False, where=True):\n    shape, dtype = anp.shape(x), anp.result_type(x)\n\n    def vjp(g):\n        g_repeated, num_reps = repeat_to_match_shape(g, shape, dtype, axis, keepdims)\n        if where is True:\n            return g_repeated / num_reps\n        return g_repeated * where / onp.sum(where, axis=axis, keepdims=True)")]),
 ]
 
 BENIGN = [
@@ -344,6 +348,9 @@ BENIGN = [
     ("inner-prod-rule-takes-the-space-from-its-own-argument", [(CO, "    lambda ans, vs, x, y: lambda g: vs.covector(vs.scalar_mul(x, g)),\n)", "    lambda ans, vs, x, y: lambda g: vspace(y).covector(vs.scalar_mul(x, g)),\n)")]),
     ("rfft-norm-scales-from-a-table", [(FF, "    if norm is None or norm == \"backward\":\n        fac /= N\n    elif norm == \"forward\":\n        fac *= N\n    elif norm != \"ortho\":\n        raise NotImplementedError(\"Real FFT gradient not implemented for norm={}\".format(norm))\n    return fac", "    scales = {None: 1.0 / N, \"backward\": 1.0 / N, \"ortho\": 1.0, \"forward\": N}\n    if norm not in scales:\n        raise NotImplementedError(\"Real FFT gradient not implemented for norm={}\".format(norm))\n    return fac * scales[norm]")]),
     ("dot-rule-metadata-through-map", [(NV, "def dot_vjp_0(ans, A, B):\n    A_meta, B_meta = anp.metadata(A), anp.metadata(B)\n    return lambda g: match_complex(A, dot_adjoint_0(B, g, A_meta, B_meta))", "def dot_vjp_0(ans, A, B):\n    metas = [anp.metadata(operand) for operand in (A, B)]\n    return lambda g: match_complex(A, dot_adjoint_0(B, g, *metas))")]),
+    ("mean-count-as-product-over-the-axes", [(NV, "    def vjp(g):\n        g_repeated, num_reps = repeat_to_match_shape(g, shape, dtype, axis, keepdims)\n        return g_repeated / num_reps\n\n    return vjp\n\n\ndefvjp(anp.mean, grad_np_mean)", "    num_reps = anp.size(x)\n    if axis is not None:\n        num_reps = 1\n        for ax in axis if isinstance(axis, tuple) else (axis,):\n            num_reps = num_reps * shape[ax]\n\n    def vjp(g):\n        return repeat_to_match_shape(g, shape, dtype, axis, keepdims)[0] / num_reps\n\n    return vjp\n\n\ndefvjp(anp.mean, grad_np_mean)")]),
+    ("complex-probe-one-draw-with-a-leading-pair-axis", [(NS, "        return np.array(np.random.randn(*self.shape)).astype(self.dtype) + 1.0j * np.array(\n            np.random.randn(*self.shape)\n        ).astype(self.dtype)", "        re, im = np.random.randn(2, *self.shape)\n        return np.array(re).astype(self.dtype) + 1.0j * np.array(im).astype(self.dtype)")]),
+    ("mean-where-count-on-the-broadcast-mask", [(NV, "def grad_np_mean(ans, x, axis=None, keepdims=False):\n    shape, dtype = anp.shape(x), anp.result_type(x)\n\n    def vjp(g):\n        g_repeated, num_reps = repeat_to_match_shape(g, shape, dtype, axis, keepdims)\n        return g_repeated / num_reps", "def grad_np_mean(ans, x, axis=None, keepdims=False, where=True):\n    shape, dtype = anp.shape(x), anp.result_type(x)\n\n    def vjp(g):\n        g_repeated, num_reps = repeat_to_match_shape(g, shape, dtype, axis, keepdims)\n        if where is True:\n            return g_repeated / num_reps\n        return g_repeated * where / onp.sum(onp.broadcast_to(where, shape), axis=axis, keepdims=True)")]),
 ]
 
 
